@@ -209,6 +209,42 @@ theorem C02_get_is_latest_of_composite_key (seg : Nat) (ops : List SOp)
   intro s
   exact get_spec s (good_history ops _ (good_init seg) hok).1 b k now
 
+open NutsProofs.SparseGet in
+/-- **C02 as the property states it, for `Get`.** In a database all of whose records belong to one bucket `b` —
+the single-bucket histories the property quantifies over, where composite keys are unambiguous — `Get(b, k)`
+after any history of successful commits and clean reopens is the **last record written under key `k`** in the
+whole log (files in id order, records in write order): its value when it is a live put, "not found" when it is
+a tombstone, has expired, or no such record exists. Data that lives only in sealed segments is as visible as
+data in the active one. -/
+theorem C02_get_single_bucket (seg : Nat) (ops : List SOp) (hok : SOpsOk (Sparse.openDB seg [] [] []).1 ops)
+    (b k : Bytes) (now : Nat)
+    (hb : ∀ x ∈ allRecs (ops.foldl stepS (Sparse.openDB seg [] [] []).1).files, x.1.bucket = b) :
+    Sparse.get (ops.foldl stepS (Sparse.openDB seg [] [] []).1) b k now =
+      match lastInLog (ops.foldl stepS (Sparse.openDB seg [] [] []).1).files (fun r => r.ds == dsKV && r.key == k) with
+      | some r => judged r now
+      | none => .err := by
+  have h := C02_get_is_latest_of_composite_key seg ops hok b k now
+  simp only at h
+  rw [h, latestFile_eq]
+  have hq : lastInLog (ops.foldl stepS (Sparse.openDB seg [] [] []).1).files (fun r => r.ds == dsKV && newKey r == b ++ k) =
+      lastInLog (ops.foldl stepS (Sparse.openDB seg [] [] []).1).files (fun r => r.ds == dsKV && r.key == k) := by
+    unfold lastInLog
+    congr 2
+    apply List.filter_congr
+    intro x hx
+    have hxb := hb x hx
+    show (x.1.ds == dsKV && newKey x.1 == b ++ k) = (x.1.ds == dsKV && x.1.key == k)
+    unfold newKey
+    rw [hxb]
+    congr 1
+    by_cases hk : x.1.key = k
+    · rw [hk]; simp
+    · have hne : ¬ (b ++ x.1.key = b ++ k) := fun e => hk (List.append_cancel_left e)
+      have h1 : (b ++ x.1.key == b ++ k) = false := by simpa using hne
+      have h2 : (x.1.key == k) = false := by simpa using hk
+      rw [h1, h2]
+  rw [hq]
+
 /-- **regenerated tie of the read path.** The conditions of tx_bptree.go the sparse model renders — the
 in-memory-first order, `SortFID` newest first, the segment range test of `Get`
 (`compare(newKey, start) >= 0 && compare(newKey, end) <= 0`), the as-coded overlap test of `rangeScanOnDisk`, the
